@@ -376,9 +376,9 @@ func clip(s string, n int) string {
 
 func run(out, tier string, seed int64) {
 	rng := rand.New(rand.NewSource(seed))
-	nDocs, perFile := 48, 6
+	nDocs, perFile := 96, 8
 	if tier == "thorough" {
-		nDocs, perFile = 600, 12
+		nDocs, perFile = 1500, 25
 	}
 	m := NewMeta("C18", tier, seed)
 	m.Rule = "one evaluation = one FQL query run on (document, context, selector); a case (document, context, selector) is non-trivial when the generator's own matcher expects at least one match; distinct = distinct (html, context, css) texts among those"
